@@ -2011,7 +2011,10 @@ func opcodeCheckSig(op *ParsedOpcode, t *thread) error {
 		return err
 	}
 
-	txCopy := t.tx.Clone()
+	txCopy, err := t.cloneTx()
+	if err != nil {
+		return err
+	}
 	txCopy.Inputs[t.inputIdx].PreviousTxScript = up
 
 	hash, err = txCopy.CalcInputSignatureHash(uint32(t.inputIdx), shf)
@@ -2282,7 +2285,10 @@ func opcodeCheckMultiSig(op *ParsedOpcode, t *thread) error {
 		}
 
 		// Generate the signature hash based on the signature hash type.
-		txCopy := t.tx.Clone()
+		txCopy, err := t.cloneTx()
+		if err != nil {
+			return err
+		}
 		txCopy.Inputs[t.inputIdx].PreviousTxScript = up
 
 		signatureHash, err := txCopy.CalcInputSignatureHash(uint32(t.inputIdx), shf)
